@@ -133,6 +133,9 @@ def ts_cached(m, meta):
                     fail["next"] = False
                 except KeyboardInterrupt:
                     last = None if last != state["ts"] else last
+                except BaseException as e:      # noqa
+                    problems.append(("a call of the cached function raised something the wrapped function did not", type(e).__name__, str(e)[:80]))
+                    break
                 continue
             if op == "resize":
                 state["ts"] = rng.choice([(80, 30), (100, 40), (120, 50)])
